@@ -22,6 +22,7 @@ pub fn list() -> Vec<(&'static str, super::Scenario)> {
         ("order_ctx", order_ctx),
         ("stale_entry", stale_entry),
         ("excl_drop", excl_drop),
+        ("indep_stale", indep_stale),
     ]
 }
 
@@ -1045,5 +1046,57 @@ fn excl_drop(cfg: &Cfg) {
         join(h, &format!("t{}", i));
     }
     finish(&w, &[&q], pool);
+    shutdown();
+}
+
+/// C10 with stale schedule entries: object X is blocked for good (pins one of the `pool` threads), the
+/// other pool threads are momentarily busy (blocking jobs released by the environment); meanwhile a
+/// queue is scheduled and then run by its caller (leaving its schedule entry behind) and another
+/// object's work is scheduled behind that entry.  Once a pool thread becomes free the other object's
+/// work must run although X stays blocked.
+fn indep_stale(cfg: &Cfg) {
+    let pool = cfg.pool();
+    setup(pool);
+    let how = cfg.opt("how", 0);
+    let w = World::new();
+    let x = w.raw();
+    let xg = BGate::new();
+    w.desync(&x, "X-blocked", Body::blocking(&xg));
+    let mut busy = vec![];
+    for i in 1..pool {
+        let y = w.raw();
+        let yg = BGate::new();
+        w.desync(&y, &format!("Y{}", i), Body::blocking(&yg));
+        busy.push((y, yg));
+    }
+    rt::quiesce();
+    let a = w.raw();
+    match how {
+        0 => {
+            w.desync(&a, "A", Body::plain());
+            w.sync(&a, "SA", Body::plain());
+        }
+        _ => {
+            w.future_desync(&a, "A-FD", Body::plain()).wait();
+        }
+    }
+    let b = w.raw();
+    let (w1, b1) = (w.clone(), b.clone());
+    let t = spawn(move || { w1.desync(&b1, "B", Body::plain()); });
+    for (_, yg) in &busy {
+        yg.open();
+    }
+    join(t, "t");
+    // X is still blocked here
+    rt::quiesce();
+    if !w.rec.all().iter().any(|o| o.name == "B" && !o.ends.is_empty()) {
+        rt::violation(format!("INDEP B did not run although a pool thread became free while another object stayed blocked (pool maximum {})", pool));
+    }
+    xg.open();
+    let mut all: Vec<&Obj> = vec![&x, &a, &b];
+    for (y, _) in &busy {
+        all.push(y);
+    }
+    finish(&w, &all, pool);
     shutdown();
 }
